@@ -1,10 +1,10 @@
 package c05
 
 import (
-	"fmt"
-	"os"
 	"strings"
 	"testing"
+
+	"verifharness/pbt"
 )
 
 // FuzzParseAssembly — native fuzzing of the text front end (thorough tier only).
@@ -44,12 +44,8 @@ func FuzzParseAssembly(f *testing.F) {
 				t.Skip() // procbuilder.Arch.Assembler reads lines into a 256 byte buffer: out of domain
 			}
 		}
+		pbt.FuzzTrace(src, sel)
 		cfg := cfgs[int(sel)%len(cfgs)]
-		if dir := os.Getenv("C05_FUZZ_TRACE"); dir != "" {
-			// a crash of the whole worker process (a panic in a goroutine of the simulator cannot be
-			// recovered) is blamed on an arbitrary input by the fuzzing engine: leave the real one behind
-			_ = os.WriteFile(fmt.Sprintf("%s/current-%d.txt", dir, os.Getpid()), []byte(cfg+"\n"+src), 0o644)
-		}
 		if _, aerr := assemble(src, cfg); aerr != nil {
 			if aerr.Phase == phParse+"-panic" || aerr.Phase == phParse {
 				return // not accepted by the line parser (or the parser itself panics on garbage): out of domain
